@@ -3,6 +3,7 @@
 //   val / create at every arity, x argument categories (all rvalues as the parser passes them, all lvalues, const lvalues, mixed),
 // with random tagged contents. Oracle: identity of the forwarded object, no copies where none are allowed, untouched other arguments.
 #include <ctpg/ctpg.hpp>
+#include <tuple>
 #include "common/engine.hpp"
 #include <array>
 
@@ -107,12 +108,14 @@ void element_one(Run& r, std::index_sequence<I...>)
     {
         r.item(std::is_same_v<T, Tag> ? "_eN" : "_eN(move-only)", K, N, 0, Cat);
         auto args = make_args<T, K>(r.ids);
-        using F = ctpg::ftors::element<N>;
+        // the documented objects _e1 .. _e9 themselves (not a functor type the harness picks by N)
+        const auto& en = std::get<N - 1>(std::tie(ctpg::ftors::_e1, ctpg::ftors::_e2, ctpg::ftors::_e3, ctpg::ftors::_e4, ctpg::ftors::_e5, ctpg::ftors::_e6, ctpg::ftors::_e7, ctpg::ftors::_e8, ctpg::ftors::_e9));
+        using F = std::decay_t<decltype(en)>;
         if constexpr (!std::is_invocable_v<F, decltype(pass<Cat, I + 1 == N>(args[I]))...>) { r.fail(Run::where("_eN not invocable at a valid position", K, N, 0, Cat)); return; }
         else
         {
             cnt() = Counters{};
-            decltype(auto) res = F{}(pass<Cat, I + 1 == N>(args[I])...);
+            decltype(auto) res = en(pass<Cat, I + 1 == N>(args[I])...);
             static_assert(std::is_reference_v<decltype(res)>, "_eN forwards (returns a reference)");
             if (&res != &args[N - 1]) r.fail(Run::where("_eN does not return the N-th argument", K, N, 0, Cat));
             if (cnt().copies || cnt().moves) r.fail(Run::where("_eN copied or moved an argument", K, N, 0, Cat));
